@@ -4,6 +4,7 @@ CONSTANTS MaxPages = 4
           MaxCalls = 12
           ShapeStops = FALSE
           Stream = FALSE
+          HaltInFetch = TRUE
 INVARIANTS TypeOK Agree InOrderExactlyOnce CursorIsCount CtorFailureIsError ExhaustedMeansAll
 PROPERTIES NothingAfterStop HasNextIdempotent
 VIEW View
